@@ -86,6 +86,12 @@ theorem decode_str_refuses_nul (s v : Bytes) (h : decodeStr s = some v) : (0 : U
 
 /-! ### refused inputs too: nothing is stored outside the buffer -/
 
+/-- pinning (translated from the source on every run): `base64_decoded_len` refuses more than two
+    trailing padding characters — the `n > 2` of `Base64.decodedLen`, on which
+    `writes_within_buffer` rests.  No differential run can see this statement in a verdict (the
+    input is refused either way); only a sanitizer sees it. -/
+theorem pin_nudge_guard : Gen.base64MaxNudge = some 2 := by decide
+
 /-- `base64_decode` sizes its buffer (`dlen + 1` bytes) from `base64_decoded_len` BEFORE it looks at
     the characters in front of the trailing padding, and it stores three bytes per whole quartet
     until it meets the first non-alphabet character — on inputs it goes on to refuse as well.  For
